@@ -38,6 +38,9 @@ struct E {
     }
 };
 struct ByKey { bool operator()(const E& a, const E& b) const { return a.key < b.key; } };
+// E has an operator< on purpose, and it is the OPPOSITE of the comparator the merge is called with:
+// code that falls back to operator< instead of the user's comparator shows at once
+inline bool operator<(const E& a, const E& b) { return a.key > b.key; }
 
 void generate(Rng& r, Workload& w, int tier) {
     int64_t threads = r.chance(1, 12) ? 8 : r.range(0, 7);   // 0..7 -> 1..8 threads, 8 -> 32
